@@ -375,6 +375,9 @@ class MinimizerIMinuit(MinimizerBase):
 
         self._get_iminuit().migrad(ncall=max_calls)
 
+        # values and errors cached before the minimization are outdated: read the results back from the backend
+        self._par_val = None
+        self._par_err = None
         for _pn, _pv, _pe in zip(self.parameter_names, self.parameter_values, self.parameter_errors):
             self._minimizer_param_dict[_pn] = _pv
             self._minimizer_param_dict["error_" + _pn] = _pe
